@@ -15,7 +15,8 @@
    weighted space; IndicatorSimplex(diameter >= 0) on a uniformly weighted space; LpNorm(inf) and
    IndicatorLpUnitBall(1) on an unweighted space (their proximals are NOT minimisers on other weightings:
    recorded findings, see C07/Refuted.v); GroupL1Norm(exponent 2) on a power space X^d whose weights are those
-   of X repeated d times, and IndicatorGroupL1UnitBall(exponent 2) likewise.  The KL family has its own
+   of X repeated d times, IndicatorGroupL1UnitBall(exponent 2) and Huber on X^d likewise;
+   IndicatorSumConstraint on a uniformly weighted space.  The KL family has its own
    theorems below (its values involve ln).                                                              *)
 From Coq Require Import Reals Lra Lia List Bool.
 From Verif Require Import Base.Num Base.Vec Base.VecR C07.Model C07.Convex C07.Leaves C07.LeafThms C07.Rules C07.L2 C07.Compose C07.Sorting C07.KL C07.Group C07.Proofs C07.Sound C07.Refuted.
@@ -344,6 +345,19 @@ Theorem factory_l1_l2 : forall m d lam (g wb : list R), 0 < lam -> (1 <= d)%nat 
         (fun s x => needs_scalar s (fun sg => Ok (prox_l1_l2 m d lam (Some g) sg x))).
 Proof. exact l1_l2_factory_sound. Qed.
 Print Assumptions factory_l1_l2.
+
+(* Huber on a vector field X^d (the repaired proximal_huber: every component times a pointwise factor) and
+   IndicatorSumConstraint (repaired: x + (c - sum x)/n; uniformly weighted space), all sizes *)
+Theorem group_huber_prox : forall m d gamma (wb x : list R) (s : R), 0 <= gamma -> 0 < s -> (1 <= d)%nat -> allpos wb ->
+  length wb = m -> length x = (d * m)%nat ->
+  let w := concat (repeat wb d) in
+  is_proxs (d * m) (leaf_val (FHuberG m d gamma) w) (metric w (repeat s (d * m))) x (prox_huber_g m d gamma s x).
+Proof. exact ghuber_leaf_prox. Qed.
+Print Assumptions group_huber_prox.
+Theorem indicator_sum_constraint_prox : forall n (c k : R) (w x : list R), 0 < k -> length x = n -> (1 <= n)%nat ->
+  is_proxs n (leaf_val (FSumC c) w) (repeat k n) x (prox_sumc c x).
+Proof. exact sumc_leaf_prox. Qed.
+Print Assumptions indicator_sum_constraint_prox.
 
 (* Kullback-Leibler (values involve ln, so these leaves are outside the executable tree model; the proximal
    formulas are the model's, tied by the correspondence):
